@@ -1,3 +1,51 @@
-From YV Require Import PyBase Token.
-Example c03_smoke : skip_space [] = [].
-Proof. reflexivity. Qed.
+(* C03 -- prose is conserved: typeset words appear once, in order; hidden
+   text never leaks.  Only statements here, closed by `exact`.  Model: the
+   whole filter.
+
+   Proved for every input: conservation by each pass around the expander --
+   the scanner cuts plain text into tokens without loss (C06), the removal
+   of pure action lines keeps every non-blank character, in order, and
+   invents none; the language split and get_txt_pos hand on exactly the
+   characters of the tokens; a use of a user macro yields the body with the
+   arguments put in, as often as they occur in the body; phrase replacement
+   changes nothing outside the replaced phrases (C13).  End to end the
+   conservation is proved for documents without active characters
+   (C06_plain_prose_fixed_point).  Not proved: conservation by the expander
+   for documents with markup (what each macro, environment and the maths
+   parser keeps or hides); decided on the C03 stream by the marker-word
+   oracle of harness/props/c03.py together with the correspondence run. *)
+From YV Require Import PyBase CharTables Token Utils Rpal Parser Ml
+                       RpalProofs MlProofs ExpandSites.
+Open Scope Z_scope.
+
+(* (1) removal of pure action lines: the characters that are no white space
+   are the same before and after, in the same order (action and language
+   tokens carry no text) *)
+Theorem C03_action_lines_conserve : forall is_space,
+  is_space c_nl = true ->
+  forall tokens r,
+  Forall E0 tokens ->
+  remove_pure_action_lines is_space tokens = Ok r ->
+  nst is_space r = nst is_space tokens.
+Proof. exact rpal_conserves. Qed.
+Print Assumptions C03_action_lines_conserve.
+
+(* (2) the language split holds exactly the text of the stream *)
+Theorem C03_sections_conserve : forall toks stack back brk cur secs,
+  let r := sections toks stack back brk cur secs in
+  let g := get_txt_pos (rev cur ++ filter not_lang toks) in
+  all_txt r = all_txt secs ++ fst g /\ all_pos r = all_pos secs ++ snd g.
+Proof. exact sections_conserve. Qed.
+Print Assumptions C03_sections_conserve.
+
+(* (3) macro expansion produces the body with its arguments, each as often
+   as the body names it *)
+Theorem C03_macro_body : forall args body cur r,
+  gen_repl args body cur = Ok r ->
+  map shape (noact r) = map shape (noact (subst_body args body)).
+Proof. exact gen_repl_subst. Qed.
+Print Assumptions C03_macro_body.
+
+Example C03_nonvacuous : py_isspace c_nl = true /\
+  E0 (ActionT 3) /\ E0 (TextT 0 [97]%N).
+Proof. split; [reflexivity|]. split; intros [H|H]; try reflexivity; discriminate. Qed.
